@@ -24,7 +24,8 @@ AST_EXPR = "minijinja::compiler::ast::Expr"
 # reviewed unchecked arithmetic / allocation sites on template-controlled integers: key -> reason
 REVIEWED = {
     "<minijinja::value::merge_object::MergeSeq as minijinja::value::object::Object>::get_value|Overflow:Add":
-        "running sum of the lengths of the merged sequences: bounded by the memory that holds them",
+        "running sum of the lengths of the merged parts; only a merge of kind Seq answers get_value, and `chain` builds one "
+        "from operands of kind Seq only (a lazily repeated sequence, whose length is not backed by memory, is an Iterable)",
     "<minijinja::value::merge_object::MergeSeq as minijinja::value::object::Object>::get_value|Overflow:Sub":
         "idx - current_idx under `idx < current_idx + len` with current_idx <= idx (loop invariant)",
     "minijinja::filters::builtins::batch|DivisionByZero": "divisor `count` is tested against 0 at function entry",
@@ -33,7 +34,6 @@ REVIEWED = {
     "minijinja::filters::builtins::batch|Overflow:Sub": "count - tmp.len(): tmp never holds more than count items",
     "minijinja::filters::builtins::slice|Overflow:Mul": "slice * items_per_slice <= len (items_per_slice = len / count)",
     "minijinja::filters::builtins::slice|Overflow:Add": "offset + slice * items_per_slice <= len; slice + 1 <= count <= 100000",
-    "minijinja::filters::builtins::map|alloc:with_capacity": "capacity is the length of an existing sequence",
     "minijinja::formatting::Cursor::advance|Overflow:Add": "byte offset inside the format string (bounded by its length)",
     "minijinja::formatting::FormatSpec::apply_zero_padding|Overflow:Sub":
         "lengths of strings built just before; fill_width is bounded by MAX_FORMAT_NUMBER at parse time",
@@ -44,7 +44,6 @@ REVIEWED = {
         "end as i64 + negative bound (opposite signs); start + step <= len + 2^63 in usize",
     "minijinja::value::ops::range_step_backwards|Overflow:Sub": "saturating_sub(..) + step - 1 with step >= 1",
     "minijinja::value::ops::range_step_backwards|DivisionByZero": "step is the absolute value of a non-zero step (slice rejects 0)",
-    "minijinja::value::ops::materialize_seq_concat|alloc:with_capacity": "sum of the lengths of two existing sequences (checked_add)",
     "minijinja::vm::context::Stack::get_call_args|Overflow:Sub": "argument count pushed by the code generator itself",
     "minijinja_contrib::filters::truncate|Overflow:Sub": "length - end_len after the `length < end_len` early return",
     "<minijinja::vm::loop_object::Loop as minijinja::value::object::Object>::get_value_by_str|Overflow:Add|loop object field `depth`":
@@ -52,6 +51,58 @@ REVIEWED = {
     "minijinja::filters::builtins::split::{closure#0}|Overflow:Add":
         "`x as usize + 1` on the `x >= 0` side only: a non-negative i64 is at most 2^63 - 1",
 }
+
+
+
+def _bounded_at_every_call_site(prog, f, local):
+    """the size is a parameter of a private function and every call site passes a constant or a value that a
+    dominating comparison with a constant bounds (`len <= MAX` at the caller, then `helper(len)`)"""
+    if f.is_pub or f.kind == "closure":
+        return False
+    os_ = flow.origins(f, {"cp": {"l": local}})
+    if not os_ or not all(o.kind == "arg" and not o.proj for o in os_):
+        return False
+    sites = prog.callers().get(f.path, [])
+    if not sites:
+        return False
+    for o in os_:
+        for c in sites:
+            if len(c.args) < o.arg:
+                return False
+            a = c.args[o.arg - 1]
+            if "c" in a:
+                continue
+            ap = op_place(a)
+            if ap is None:
+                return False
+            if not (taint.constant_bound_guards(c.fn, c.bb, ap["l"]) or taint.bounded_on_all_paths(c.fn, c.bb, ap["l"])
+                    or _kept_by_a_bounding_filter(prog, c.fn, a)):
+                return False
+    return True
+
+
+
+def _kept_by_a_bounding_filter(prog, f, op):
+    """the value is the payload of `Option::filter(|&x| x <= CONST)` (also `<`): the closure's verdict is that comparison"""
+    os_ = flow.origins(f, op)
+    if not os_:
+        return False
+    for o in os_:
+        if not (o.kind == "call" and o.call.name == "core::option::Option::filter" and len(o.call.args) > 1):
+            return False
+        ok = False
+        for oc in flow.origins(f, o.call.args[1]):
+            if oc.kind == "agg" and oc.rv.get("closure"):
+                cl = prog.fns.get(norm_path(oc.rv["closure"]))
+                if cl is None:
+                    continue
+                rets = flow.origins(cl, 0)
+                if rets and all(r.kind == "bin" and r.rv["op"] in ("Le", "Lt") and "c" in r.rv["b"] and "c" not in r.rv["a"]
+                                and const_int(r.rv["b"]) is not None for r in rets):
+                    ok = True
+        if not ok:
+            return False
+    return True
 
 
 def guarded_call_sites(prog, f, max_rec):
@@ -118,6 +169,9 @@ def run(ctx):
     if not ctx.is_borrowed:
         _c11.run(ctx.borrowed("C11", "C01.P5:"))
         _c05.run(ctx.borrowed("C05", "C01.P12:"))
+        # P16 (= C07.V2, after seed C01-7): std's sort panics when it notices a comparator that is not a total order
+        from .c07 import check_comparators
+        check_comparators(ctx.borrowed("C07", "C01.P16:"), ctx.program("MAX"), "")
     for cname in ctx.configs():
         prog = ctx.program(cname)
         tag = "" if cname == "MAX" else "[%s]" % cname
@@ -249,6 +303,9 @@ def run(ctx):
                 p = op_place(c.args[idx])
                 bounds = taint.constant_bound_guards(f, bb, p["l"]) if p else []
                 if bounds or (p and taint.bounded_on_all_paths(f, bb, p["l"])):
+                    ndis += 1
+                    continue
+                if p and _bounded_at_every_call_site(prog, f, p["l"]):
                     ndis += 1
                     continue
                 key = "%s|alloc:%s" % (f.path, callee.split("::")[-1])
